@@ -751,6 +751,10 @@ class Saver:
 
                 for chunk in chunks:
                     new_f = self.save(chunk=chunk, chunk_i=chunk_i, executor=executor)
+                    for f in pending:
+                        if f.done() and f.exception() is not None:
+                            # A chunk write failed on the executor
+                            raise f.exception()
                     pending = [f for f in pending if not f.done()]
                     if new_f is not None:
                         pending += [new_f]
@@ -771,7 +775,13 @@ class Saver:
 
         finally:
             if not self.closed:
-                self.close(wait_for=pending)
+                try:
+                    self.close(wait_for=pending)
+                except Exception as e:
+                    # Do not let a failure while closing (final chunk writes, metadata,
+                    # rename) pass unnoticed: the processor checks got_exception
+                    self.got_exception = e
+                    raise
 
     def save(self, chunk: strax.Chunk, chunk_i: int, executor=None):
         """Save a chunk, returning future to wait on or None."""
@@ -813,12 +823,18 @@ class Saver:
             done, not_done = wait(wait_for, timeout=self.timeout)
             if len(not_done):
                 raise RuntimeError(f"{len(not_done)} futures of {self.md} did notcomplete in time!")
+            for f in done:
+                if f.exception() is not None and self.got_exception is None:
+                    # A write on the executor failed: never report this data as complete
+                    self.got_exception = f.exception()
 
         self.closed = True
 
         exc_info = strax.formatted_exception()
         if exc_info:
             self.md["exception"] = exc_info
+        elif self.got_exception is not None:
+            self.md["exception"] = repr(self.got_exception)
 
         if self.md["chunks"]:
             # Update to precise start and end values
